@@ -13,6 +13,10 @@ package recorder
 //   starts, stops, writes   counters of successful starts, stops of an open file, frames
 //   wfault   a write of the current file failed
 //   bg, thresh   background frame / threshold given to the last successful start
+// Clauses tagged [proto] are the part of the protocol an implementation is checked
+// against (`implements ... inv ...` on its methods): the open/closed state. The
+// counters are history variables of the call sequence and the oracles are the
+// environment's choice, so neither constrains an implementation.
 // Environment oracles (arbitrary, but stable until the corresponding call):
 //   startOK  the next StartRecording succeeds; canRec  CheckCanRecord succeeds;
 //   stopOK   the next StopRecording returns no error
@@ -36,6 +40,7 @@ package recorder
 //@   requires [C12] !r.open
 //@   modifies r.open, r.inFile, r.wfault, r.starts, r.startOK, r.bg, r.thresh
 //@   ensures (err == nil) == old(r.startOK)
+//@   ensures [proto] r.open == (err == nil)
 //@   ensures err == nil ==> r.open && r.inFile == 0 && !r.wfault && r.starts == old(r.starts) + 1 && r.bg == ref(backgroundFrame) && r.thresh == tempThresh
 //@   ensures err != nil ==> !r.open && r.inFile == old(r.inFile) && r.wfault == old(r.wfault) && r.starts == old(r.starts) && r.bg == old(r.bg) && r.thresh == old(r.thresh)
 
@@ -47,16 +52,19 @@ package recorder
 //@   ensures r.next == seq + 1 && r.inFile == old(r.inFile) + 1 && r.writes == old(r.writes) + 1
 //@   ensures r.first == (old(r.inFile) == 0 ? seq : old(r.first))
 //@   ensures r.wfault == (old(r.wfault) || err != nil)
+//@   ensures [proto] r.open == old(r.open)
 
 //@ iface (r Recorder) StopRecording() (err)
 //@   requires [C12] ref(r) != 0
 //@   modifies r.open, r.stops, r.stopOK
 //@   ensures !r.open && r.stops == old(r.stops) + (old(r.open) ? 1 : 0)
+//@   ensures [proto] !r.open
 //@   ensures (err == nil) == old(r.stopOK)
 
 //@ iface (r Recorder) CheckCanRecord() (err)
 //@   requires [C12] ref(r) != 0
 //@   ensures (err == nil) == r.canRec
+//@   ensures [proto] r.open == old(r.open)
 
 //@ func (conf *RecorderConfig) validate
 //@   requires conf != nil
